@@ -81,13 +81,26 @@ def tree_hash():
     return _tree_hash
 
 
-def _common_hash():
-    h = hashlib.sha256()
+def _common_hash(srcp):
+    """hash of the harness/common headers the source includes (transitively)"""
     root = os.path.join(VERIF, 'harness', 'common')
-    for f in sorted(os.listdir(root)):
-        with open(os.path.join(root, f), 'rb') as fh:
-            h.update(f.encode())
-            h.update(fh.read())
+    seen, todo = set(), [srcp]
+    h = hashlib.sha256()
+    while todo:
+        p = todo.pop()
+        try:
+            with open(p, 'rb') as fh:
+                data = fh.read()
+        except OSError:
+            continue
+        if p != srcp:
+            h.update(os.path.basename(p).encode())
+            h.update(data)
+        for m in re.finditer(rb'#\s*include\s+"([^"]+)"', data):
+            q = os.path.join(root, m.group(1).decode())
+            if q not in seen and os.path.exists(q):
+                seen.add(q)
+                todo.append(q)
     return h.hexdigest()
 
 
@@ -103,7 +116,7 @@ def build(src, variant='asan', defines=(), libs=None, extra_flags=(), name=None)
                 '-Wno-deprecated-declarations']
     h = hashlib.sha256()
     h.update(tree_hash().encode())
-    h.update(_common_hash().encode())
+    h.update(_common_hash(srcp).encode())
     with open(srcp, 'rb') as fh:
         h.update(fh.read())
     h.update(' '.join(cmd_core + libs).encode())
